@@ -20,7 +20,7 @@ META = {"text": "Each reported counter-example (replay path + printed transition
 
 def run(ctx):
     quick = ctx.quick
-    progs = M.programs(ctx, 25 if quick else 150, 3, 4 if quick else 5)
+    progs = M.programs(ctx, 25 if quick else 100, 3, 4)
     ref = M.reference(ctx, progs)
     sel = [i for i in range(len(progs)) if any(o["end"] == "deadlock" for o in ref[i])]
     sub = [progs[i] for i in sel]
@@ -61,7 +61,7 @@ def run(ctx):
             pidmap = {a + 1: a + 1 for a in range(len(sub[j]["actors"]))}
             cex = []
             for line in ce:
-                m = re.match(r"Actor (\d+) in simcall (.*)$", line) or re.match(r"Actor (\d+) in (.*)$", line)
+                m = re.search(r"Actor (\d+) in simcall (.*)$", line) or re.search(r"Actor (\d+) in (.*)$", line)
                 if m:
                     cex.append({"a": int(m.group(1)), "tc": 0, "tr": m.group(2).strip()})
             nh = sum(1 for x in t if x.get("e") == "handle")
